@@ -45,7 +45,7 @@ class SimThread:
                  'exc_tb', 'parked', 'op', 'obj', 'enabled_fn', 'nops', 'nstable',
                  'stall_until', 'idle_stall', 'inject', 'started', 'retval',
                  'kind_counts', 'pytarget', 'last_kind', 'last_obj', 'spin', 'baton_done',
-                 'line_arm')
+                 'line_arm', 'proc', 'daemon', 'dead')
 
     def __init__(self, sim, tid, name, role, fn):
         self.sim = sim
@@ -76,8 +76,13 @@ class SimThread:
         self.spin = False
         self.baton_done = None
         self.line_arm = None
+        self.proc = None       # which simulated OS process the thread belongs to
+        self.daemon = False
+        self.dead = False      # killed by the exit of its process (a daemon thread)
 
     def is_enabled(self):
+        if self.dead:
+            return False
         if self.idle_stall:
             return False
         if self.stall_until is not None:
@@ -286,6 +291,14 @@ class Sim:
         self.hang_interrupt_fired = False
         # source files whose lines count for Stall(lines=k): the package under test
         self.trace_root = None
+        # Process model: threads spawned with proc=P (and the threads they start) form one OS
+        # process whose main thread is the first of them.  When that main thread has returned (or
+        # died) and every non-daemon thread of the process has finished, the process exits: its
+        # daemon threads are killed where they stand and `on_process_exit` callbacks run (the
+        # network closes the process's sockets) -- what the interpreter and the OS do.
+        self.proc_main = {}          # proc -> its main SimThread
+        self.proc_exited = set()
+        self.on_process_exit = []
 
         self.ctl = _thread.allocate_lock()
         self.ctl.acquire()
@@ -377,9 +390,13 @@ class Sim:
 
     # -- threads -------------------------------------------------------------------------
 
-    def spawn(self, fn, role, name=None):
+    def spawn(self, fn, role, name=None, proc=None, daemon=False):
         tid = len(self.threads)
         t = SimThread(self, tid, name or role, role, fn)
+        t.proc = proc
+        t.daemon = daemon
+        if proc is not None and proc not in self.proc_main:
+            self.proc_main[proc] = t
         self.threads.append(t)
         self.policy.on_spawn(self, t)
         _thread.start_new_thread(self._thread_main, (t,))
@@ -561,11 +578,13 @@ class Sim:
         threads = self.threads
         policy = self.policy
         while True:
+            if self.proc_main:
+                self._check_process_exit()
             enabled = [t for t in threads if t.parked and not t.finished and t.is_enabled()]
             has_event = bool(self.events)
             if not enabled and not has_event:
                 # release one idle-stalled thread, if any (limit case of "however long")
-                idle = [t for t in threads if t.idle_stall and not t.finished]
+                idle = [t for t in threads if t.idle_stall and not t.finished and not t.dead]
                 if idle:
                     t = idle[0]
                     t.idle_stall = False
@@ -609,12 +628,28 @@ class Sim:
             if self.now > self.max_time:
                 self.outcome = 'time_budget'
                 return
-        unfinished = [t for t in threads if not t.finished]
+        unfinished = [t for t in threads if not t.finished and not t.dead]
         if not unfinished:
             self.outcome = 'finished'
         else:
             self.outcome = 'deadlock'
             self.blocked = [(t.role, t.op, t.obj) for t in unfinished]
+
+    def _check_process_exit(self):
+        for proc, mt in self.proc_main.items():
+            if proc in self.proc_exited or not mt.finished:
+                continue
+            mine = [t for t in self.threads if t.proc == proc and not t.finished]
+            if any(not t.daemon for t in mine):
+                continue        # the interpreter waits for non-daemon threads before it exits
+            self.proc_exited.add(proc)
+            for t in mine:
+                t.dead = True
+            if self.record_on:
+                self.log.append((self.decisions, self.now, mt.role, 'proc.exit', proc,
+                                 tuple(t.role for t in mine)))
+            for cb in self.on_process_exit:
+                cb(self, proc, mine)
 
     def _switch_to(self, t):
         t.parked = False
@@ -626,7 +661,10 @@ class Sim:
         self.current = None
 
     def _teardown(self):
-        self.blocked_final = [(t.role, t.op, t.obj) for t in self.threads if not t.finished]
+        self.blocked_final = [(t.role, t.op, t.obj) for t in self.threads
+                              if not t.finished and not t.dead]
+        self.killed_at_exit = [(t.role, t.op, t.obj) for t in self.threads
+                               if t.dead and not t.finished]
         self.aborting = True
         left = [t for t in self.threads if not t.finished]
         for t in left:
